@@ -1,6 +1,6 @@
 (** * RunIndep: whole-run unit independence (C07) in the regime where the solver model is proved to be the Euler recurrence:
     never held, constant duty cycle above the dead zone, constant step, constant load.  Two models of the "same" powertrain —
-    every quantity written in whatever unit, same pure numbers (ratios, efficiencies) — record, at every instant, output
+    every quantity written in whatever unit (the time step may even change unit from one run to the next), same pure numbers — record, at every instant, output
     speeds and positions with the same SI magnitude. *)
 From Coq Require Import ZArith QArith Reals Lra String List Bool.
 From GP Require Import ArithDef UnitsCore PyUnits RealArith Spec UnitsR QOps QOpsR Motor MotorR Solver SolverProofs C04Core SolverSI.
@@ -8,8 +8,8 @@ Import ListNotations.
 Open Scope R_scope.
 
 (** everything the two descriptions must share: SI magnitudes of the dimensional inputs, and the pure numbers *)
-Record same_system (c c' : @chain RA) (load load' : rq -> rq -> rq -> res rq) (dt0 dt0' : rq)
-                   (W0 TM I0 IM L JJ DT : R) : Prop := {
+Record same_system (c c' : @chain RA) (load load' : rq -> rq -> rq -> res rq)
+                   (W0 TM I0 IM L JJ : R) : Prop := {
   ss_i0 : exists i0 imax, m_i0 (c_motor c) = Some i0 /\ m_imax (c_motor c) = Some imax /\ si i0 = Ok I0 /\ si imax = Ok IM /\
                           qk i0 = KCurrent /\ qk imax = KCurrent;
   ss_i0' : exists i0 imax, m_i0 (c_motor c') = Some i0 /\ m_imax (c_motor c') = Some imax /\ si i0 = Ok I0 /\ si imax = Ok IM /\
@@ -21,14 +21,13 @@ Record same_system (c c' : @chain RA) (load load' : rq -> rq -> rq -> res rq) (d
   ss_l' : forall t p w lt, load' t p w = Ok lt -> qk lt = KTorque /\ si lt = Ok L;
   ss_J : exists J, equivalent_inertia c = Ok J /\ si J = Ok JJ /\ qk J = KInertiaMoment;
   ss_J' : exists J, equivalent_inertia c' = Ok J /\ si J = Ok JJ /\ qk J = KInertiaMoment;
-  ss_dt : si dt0 = Ok DT;  ss_dt' : si dt0' = Ok DT;
   ss_R : Rr c = Rr c';  ss_G : Gg c = Gg c'      (* product of the gear ratios, product of ratio x efficiency: pure numbers *)
 }.
 
-Theorem run_unit_independent (c c' : @chain RA) load load' dt0 dt0' W0 TM I0 IM L JJ DT D :
-  same_system c c' load load' dt0 dt0' W0 TM I0 IM L JJ DT ->
+Theorem run_unit_independent (c c' : @chain RA) load load' W0 TM I0 IM L JJ DT D :
+  same_system c c' load load' W0 TM I0 IM L JJ ->
   I0 / IM < Rabs D -> 0 <= I0 /\ 0 < IM /\ 0 < W0 /\ 0 < JJ ->
-  forall h h', hist_ok c load h -> hist_ok c' load' h' -> uniform D dt0 h -> uniform D dt0' h' ->
+  forall h h', hist_ok c load h -> hist_ok c' load' h' -> uniform DT D h -> uniform DT D h' ->
   (* the same initial state, in SI *)
   forall t0 s0 pre t0' s0' pre', h = (pre ++ [(t0, s0)])%list -> h' = (pre' ++ [(t0', s0')])%list ->
   forall w0 p0 w0' p0' W00 P00, lastq (s_spd s0) = Ok w0 -> lastq (s_pos s0) = Ok p0 -> si w0 = Ok W00 -> si p0 = Ok P00 ->
@@ -41,22 +40,22 @@ Theorem run_unit_independent (c c' : @chain RA) load load' dt0 dt0' W0 TM I0 IM 
 Proof.
   intros S HD Hpos h h' Hh Hh' Hu Hu' t0 s0 pre t0' s0' pre' E E' w0 p0 w0' p0' W00 P00 Hw Hp sw sp Hw' Hp' sw' sp' t s rest t' s' rest' Eh Eh' Hlen.
   destruct S as [(i0 & imax & Hi & Hm & sI & sM & kI & kM) (i0' & imax' & Hi' & Hm' & sI' & sM' & kI' & kM')
-                 sW sW' (sT & kT) (sT' & kT') Hl Hl' (J & HJ & sJ & kJ) (J' & HJ' & sJ' & kJ') sdt sdt' HR HG].
+                 sW sW' (sT & kT) (sT' & kT') Hl Hl' (J & HJ & sJ & kJ) (J' & HJ' & sJ' & kJ') HR HG].
   assert (Hne : h <> []) by (rewrite Eh; discriminate). assert (Hne' : h' <> []) by (rewrite Eh'; discriminate).
-  destruct (history_follows_euler c load i0 imax Hi Hm W0 TM I0 IM L sW sT sI sM kT kI kM Hl JJ DT D J dt0 HJ sJ kJ sdt HD Hpos
+  destruct (history_follows_euler c load i0 imax Hi Hm W0 TM I0 IM L sW sT sI sM kT kI kM Hl JJ DT D J HJ sJ kJ HD Hpos
               h Hh Hu Hne t0 s0 pre E w0 p0 W00 P00 Hw Hp sw sp t s rest Eh) as (wk & pk & A1 & A2 & A3 & A4).
-  destruct (history_follows_euler c' load' i0' imax' Hi' Hm' W0 TM I0 IM L sW' sT' sI' sM' kT' kI' kM' Hl' JJ DT D J' dt0' HJ' sJ' kJ' sdt' HD Hpos
+  destruct (history_follows_euler c' load' i0' imax' Hi' Hm' W0 TM I0 IM L sW' sT' sI' sM' kT' kI' kM' Hl' JJ DT D J' HJ' sJ' kJ' HD Hpos
               h' Hh' Hu' Hne' t0' s0' pre' E' w0' p0' W00 P00 Hw' Hp' sw' sp' t' s' rest' Eh') as (wk' & pk' & B1 & B2 & B3 & B4).
   unfold A_lin, kap_lin, A_g, kap_g in *. rewrite <- HR, <- HG, <- Hlen in B3, B4.
   do 6 eexists. repeat split; eassumption.
 Qed.
 
 (** the same, for the histories of any two operation sequences on fresh powertrains *)
-Theorem reachable_run_unit_independent (c c' : @chain RA) load load' dt0 dt0' W0 TM I0 IM L JJ DT D ops ops' p w p' w' st st' :
-  same_system c c' load load' dt0 dt0' W0 TM I0 IM L JJ DT ->
+Theorem reachable_run_unit_independent (c c' : @chain RA) load load' W0 TM I0 IM L JJ DT D ops ops' p w p' w' st st' :
+  same_system c c' load load' W0 TM I0 IM L JJ ->
   I0 / IM < Rabs D -> 0 <= I0 /\ 0 < IM /\ 0 < W0 /\ 0 < JJ ->
   exec c load ops (initial p w) = Ok st -> exec c' load' ops' (initial p' w') = Ok st' ->
-  uniform D dt0 (y_hist st) -> uniform D dt0' (y_hist st') ->
+  uniform DT D (y_hist st) -> uniform DT D (y_hist st') ->
   forall t0 s0 pre t0' s0' pre', y_hist st = (pre ++ [(t0, s0)])%list -> y_hist st' = (pre' ++ [(t0', s0')])%list ->
   forall w0 p0 w0' p0' W00 P00, lastq (s_spd s0) = Ok w0 -> lastq (s_pos s0) = Ok p0 -> si w0 = Ok W00 -> si p0 = Ok P00 ->
                                 lastq (s_spd s0') = Ok w0' -> lastq (s_pos s0') = Ok p0' -> si w0' = Ok W00 -> si p0' = Ok P00 ->
@@ -84,11 +83,11 @@ Proof.
   intros E. destruct (exists_last (l := x :: rest)) as (pre2 & z & Ez); [discriminate|]. exists pre2. rewrite Ez in *.
   rewrite app_assoc in E. apply app_inj_tail in E. destruct E as [_ ->]. reflexivity.
 Qed.
-Theorem every_instant_unit_independent (c c' : @chain RA) load load' dt0 dt0' W0 TM I0 IM L JJ DT D ops ops' p w p' w' st st' :
-  same_system c c' load load' dt0 dt0' W0 TM I0 IM L JJ DT ->
+Theorem every_instant_unit_independent (c c' : @chain RA) load load' W0 TM I0 IM L JJ DT D ops ops' p w p' w' st st' :
+  same_system c c' load load' W0 TM I0 IM L JJ ->
   I0 / IM < Rabs D -> 0 <= I0 /\ 0 < IM /\ 0 < W0 /\ 0 < JJ ->
   exec c load ops (initial p w) = Ok st -> exec c' load' ops' (initial p' w') = Ok st' ->
-  uniform D dt0 (y_hist st) -> uniform D dt0' (y_hist st') ->
+  uniform DT D (y_hist st) -> uniform DT D (y_hist st') ->
   forall t0 s0 pre t0' s0' pre', y_hist st = (pre ++ [(t0, s0)])%list -> y_hist st' = (pre' ++ [(t0', s0')])%list ->
   forall w0 p0 w0' p0' W00 P00, lastq (s_spd s0) = Ok w0 -> lastq (s_pos s0) = Ok p0 -> si w0 = Ok W00 -> si p0 = Ok P00 ->
                                 lastq (s_spd s0') = Ok w0' -> lastq (s_pos s0') = Ok p0' -> si w0' = Ok W00 -> si p0' = Ok P00 ->
@@ -105,7 +104,7 @@ Proof.
   rewrite Eh in Hh, Hu, E. rewrite Eh' in Hh', Hu', E'.
   apply hist_ok_suffix in Hh. apply hist_ok_suffix in Hh'.
   destruct (suffix_last _ _ _ _ _ E) as (pre2 & E2). destruct (suffix_last _ _ _ _ _ E') as (pre2' & E2').
-  eapply (run_unit_independent c c' load load' dt0 dt0' W0 TM I0 IM L JJ DT D S HD Hpos _ _ Hh Hh'); eauto.
+  eapply (run_unit_independent c c' load load' W0 TM I0 IM L JJ DT D S HD Hpos _ _ Hh Hh'); eauto.
   - intros a b Hin. apply (Hu a b). apply in_or_app. right. exact Hin.
   - intros a b Hin. apply (Hu' a b). apply in_or_app. right. exact Hin.
 Qed.
